@@ -274,7 +274,9 @@ def check_packet_copy(ctx, pkt, origin):
             ctx.violation(f"copy/packet/{rname}/raw_data", "raw bytes changed or lost", wit)
         elif rd.pos != pkt.raw_data.pos:
             ctx.violation(f"copy/packet/{rname}/cursor", f"cursor {pkt.raw_data.pos} -> {rd.pos}", wit)
-        if c.header != pkt.header or c.user_data != pkt.user_data:
+        def same_view(a, b):   # NaN-aware (a copied NaN is a different object and compares unequal to the original)
+            return list(a) == list(b) and all(same(plain(a[k]), plain(b[k])) for k in a)
+        if not same_view(c.header, pkt.header) or not same_view(c.user_data, pkt.user_data):
             ctx.violation(f"copy/packet/{rname}/views", "header/user_data views differ", wit)
 
 
@@ -333,6 +335,46 @@ def run(ctx):
                 ctx.sample({"class": cls.__name__, "value": v, "raw_value_given": r if has else "(none)"})
 
     harvest(ctx)
+    harvest_generated(ctx)
+
+
+def harvest_generated(ctx):
+    """values of every parameter-type kind and whole packets from real parses of GENERATED documents"""
+    from space_packet_parser import common
+    from vmon import gen, harness, render
+    from vmon.libutil import load_definition, monitored
+    kinds = {common.IntParameter: ("int", int), common.FloatParameter: ("float", float), common.StrParameter: ("str", str),
+             common.BinaryParameter: ("bytes", bytes), common.BoolParameter: ("bool", bool)}
+    seen = set()
+    for d in range(ctx.size(48, 1500)):
+        if not ctx.mine(d):
+            continue
+        rng = ctx.rng("gen", d)
+        doc = gen.gen_document(rng)
+        ld = monitored(load_definition, render.render_doc(doc))
+        if ld.exc is not None:
+            continue
+        info = harness.DocInfo(doc)
+        for raw in gen.gen_packets(rng, doc, 8):
+            step, pkt = harness.parse_single(ld.value, raw)
+            if step.exc is not None:
+                continue
+            check_packet_copy(ctx, step.value, origin=f"generated:{d}")
+            for name, val in step.value.items():
+                cls = type(val)
+                if cls not in kinds:
+                    ctx.violation(f"harvest/class/{cls.__name__}", f"parsed value {name} has class {cls.__name__}, not one of the five", {"doc": d})
+                    continue
+                kind, base = kinds[cls]
+                plainv = plain(val) if kind != "bool" else bool(val)
+                rv = val.raw_value
+                key = (cls, category(plainv), category(plain(rv)), info.feat.get(name, "?"))
+                if key in seen:
+                    continue
+                seen.add(key)
+                ctx.count("harvested.values")
+                has = not (type(plain(rv)) is type(plainv) and same(plain(rv), plainv))
+                check_value(ctx, cls, kind, base, plainv, plain(rv) if has else None, has, origin=f"generated:{d}:{info.feat.get(name)}")
 
 
 def harvest(ctx):
